@@ -98,7 +98,7 @@ def unit_ops(ctx):
 
 def run(ctx):
     ctx.rule = ("units of all 7 types built from the documented key tables with injection payloads as values (escaped newlines followed by forged entries/sections, "
-                "brackets, '#', ';', '=', backslashes, controls, blanks at the edges), unusual file names (newline, '[', '=', '#', blanks), payloads in the directory part of Yaml= / File= / SetWorkingDirectory= and of the unit's own directory (the paths the generator derives and stores as WorkingDirectory=, --configmap) and extra user sections; each converted, "
+                "brackets, '#', ';', '=', backslashes, controls, blanks at the edges), unusual file names (newline, '[', '=', '#', blanks), payloads in the directory part of Yaml= / File= / SetWorkingDirectory= and of the unit's own directory (the paths the generator derives and stores as WorkingDirectory=, --configmap), in absolute Volume= / Mount= sources alone and next to a blank, a quote or a backslash (stored as RequiresMountsFor=), and extra user sections; each converted, "
                 "the service serialised as to_string does and read back by the implementation's parser; plus random multimap operation sequences model-vs-implementation; "
                 "non-trivial = unit carries at least one payload value or unusual name; distinct = distinct unit texts")
     rng = ctx.rng
@@ -128,6 +128,18 @@ def run(ctx):
         work.append(("build", "/d/b.build", "[Build]\nImageTag=localhost/t\nSetWorkingDirectory=%s\n" % gen_conv.dq("sub/" + pay), [("SetWorkingDirectory", pay)]))
         work.append(("kube", "/d/%s/k.kube" % pay.replace("/", "_"), "[Kube]\nYaml=p.yaml\nSetWorkingDirectory=unit\n", [("dir", pay)]))
         work.append(("kube", "/d/%s/k.kube" % pay.replace("/", "_"), "[Kube]\nYaml=sub/p.yaml\nConfigMap=cm.yaml\n", [("dir", pay)]))
+    # host paths the generator copies into [Unit] RequiresMountsFor= (absolute Volume= / Mount= sources): payloads alone and combined with a blank,
+    # a quote and a backslash (a path that "needs quoting" must not open a second way into the file)
+    for pay in gen_conv.TEXT:
+        for deco in ("%s", "%s x", "a b/%s", "q\"/%s y", "b\\/%s z"):
+            src = "/srv/" + deco % pay
+            if ":" in src or "," in src:
+                continue
+            work.append(("container", "/d/c.container", "[Container]\nImage=img\nVolume=%s\n" % gen_conv.dq(src + ":/dst"), [("Volume", pay)]))
+            work.append(("pod", "/d/p.pod", "[Pod]\nVolume=%s\n" % gen_conv.dq(src + ":/dst:ro"), [("Volume", pay)]))
+            work.append(("build", "/d/b.build", "[Build]\nImageTag=localhost/t\nFile=/Containerfile\nVolume=%s\n" % gen_conv.dq(src + ":/dst"), [("Volume", pay)]))
+            if '"' not in src and "\n" not in src and "\r" not in src:
+                work.append(("container", "/d/c.container", "[Container]\nImage=img\nMount=%s\n" % gen_conv.dq("type=bind,source=%s,destination=/m" % src), [("Mount", pay)]))
     outs = vlib.run_impl([case_line("convert", "0", p, t) for _, p, t, _ in work])
     back_cases, idx = [], []
     for i, o in enumerate(outs):
